@@ -244,6 +244,12 @@ fn check_dmin(c: &DminCase) -> CheckResult {
     };
     let items = guard(|| arrival::delta_min_iter(&ab).take(c.take + 2).map(|(n, x)| (n, du(x))).collect::<Vec<_>>())
         .map_err(|e| format!("delta_min_iter panicked: {}", e))?;
+    // nonzero_delta_min_iter is the same sequence without the two default items
+    let nz = guard(|| arrival::nonzero_delta_min_iter(&ab).take(c.take).map(|(n, x)| (n, du(x))).collect::<Vec<_>>())
+        .map_err(|e| format!("nonzero_delta_min_iter panicked: {}", e))?;
+    if items.len() >= 2 && nz[..] != items[2..] {
+        return Err(format!("nonzero_delta_min_iter yields {:?}... but delta_min_iter continues {:?}... after its two default items", &nz[..nz.len().min(5)], &items[2..items.len().min(7)]));
+    }
     // the two default items
     if items.len() < 2 || items[0] != (0, 0) || items[1] != (1, 0) {
         return Err(format!("delta_min_iter does not start with (0,0),(1,0): {:?}", &items[..items.len().min(3)]));
@@ -284,7 +290,7 @@ fn check_dmin(c: &DminCase) -> CheckResult {
 pub fn def() -> PropertyDef {
     PropertyDef {
         id: "C12",
-        rule: "generated: (a) event traces (non-decreasing offsets with simultaneous events, bursts and long gaps), prefix_jobs 1..8, plain and extrapolating wrapping: max events of the trace in any window of every length delta <= span+30 (window counting) <= curve(delta); (b) sub-additive sources (Periodic, Sporadic with J <= 4T, extrapolating super-additive curves incl. plateau-ended ones, jittered clones, sums, vectors; depth <= 2) with from_arrival_bound(n), from_arrival_bound_until(h), ArrivalCurvePrefix::from_arrival_bound_until(h), Curve::from(&prefix), From<Periodic|Sporadic>: derived >= source for every delta up to 4x the covered prefix plus 6 source scales, and == source up to the covered prefix (largest recorded minimum distance resp. horizon); (c) delta_min_iter over every arrival spec: starts (0,0),(1,0), then n consecutive from 2 with eta(x+1) >= n and eta(x) < n, ends only if no more events fit. Non-trivial: trace with a burst or >= 2 distinct gaps and span beyond the prefix; derived checked beyond the covered prefix for a jittered/bursty/nested source; >= 3 dual pairs. Known finding matched by signature: a trace with more than prefix_jobs simultaneous events (inferred prefix all zero) divides by zero.".into(),
+        rule: "generated: (a) event traces (non-decreasing offsets with simultaneous events, bursts and long gaps), prefix_jobs 1..8, plain and extrapolating wrapping: max events of the trace in any window of every length delta <= span+30 (window counting) <= curve(delta); (b) sub-additive sources (Periodic, Sporadic with J <= 4T, extrapolating super-additive curves incl. plateau-ended ones, jittered clones, sums, vectors; depth <= 2) with from_arrival_bound(n), from_arrival_bound_until(h), ArrivalCurvePrefix::from_arrival_bound_until(h), Curve::from(&prefix), From<Periodic|Sporadic>: derived >= source for every delta up to 4x the covered prefix plus 6 source scales, and == source up to the covered prefix (largest recorded minimum distance resp. horizon); (c) delta_min_iter over every arrival spec: starts (0,0),(1,0), then n consecutive from 2 with eta(x+1) >= n and eta(x) < n, ends only if no more events fit; nonzero_delta_min_iter is the same sequence without the two default items. Non-trivial: trace with a burst or >= 2 distinct gaps and span beyond the prefix; derived checked beyond the covered prefix for a jittered/bursty/nested source; >= 3 dual pairs. Known finding matched by signature: a trace with more than prefix_jobs simultaneous events (inferred prefix all zero) divides by zero.".into(),
         assumptions: vec![
             "traces are non-decreasing with >= 2 events, prefix_jobs >= 1".into(),
             "sources of derived curves are sub-additive (a plain non-extrapolating Curve or an ArrivalCurvePrefix is not used as a source: its repetition tail is an over-approximation nobody claims to be sub-additive, and dominance of a delta-min representation presupposes it)".into(),
